@@ -430,6 +430,21 @@ Theorem analyze_keeps_meaning_grammar : forall re_match parse_float lit_round (e
 Proof. exact analyze_sem_grammar. Qed.
 Print Assumptions analyze_keeps_meaning_grammar.
 
+(* 2k. The analysis is right for EVERY printer that separates the terms of the selector: analyzeCond over an arbitrary key function
+   (analyze_cond_k; the model's analyze_cond is its instance at attr_sel_string: analyze_cond_k_faithful) keeps the meaning of the
+   expression whenever the key is injective on the expression's terms.  Together with 21 this is 2g; it also says what a changed
+   String() has to preserve. *)
+Theorem analyze_keeps_meaning_for_every_injective_key : forall re_match parse_float lit_round (key : attr_sel -> string) (e : attr_exp),
+  (forall a b, List.In a (exp_terms e) -> List.In b (exp_terms e) -> key a = key b -> a = b) ->
+  let '(c, st) := analyze_cond_k key e ([], []) in
+  forall rows, cond_sem re_match parse_float lit_round (fst st) rows c = exp_sem re_match parse_float lit_round e rows.
+Proof. exact analyze_any_injective_key. Qed.
+Print Assumptions analyze_keeps_meaning_for_every_injective_key.
+
+Theorem analyze_cond_is_the_faithful_instance : forall e st, analyze_cond_k attr_sel_string e st = analyze_cond e st.
+Proof. exact analyze_cond_k_faithful. Qed.
+Print Assumptions analyze_cond_is_the_faithful_instance.
+
 (* 2r. The guard is needed of the PRINTER: analyzeCond run with a key that prints only the first 8 bytes of the literal (the shape of
    C11-f) merges  .u = "/ordersA"  and  .u = "/ordersB" : the expression holds of a span that has only B, the analysed condition
    does not; with the faithful key it does. *)
